@@ -365,25 +365,45 @@ class Builder:
                     rule["body"] = self.d(st.sampled_from([f["name"] for f in tops]))
         return rule, chosen
 
-    def signature(self, req, fileidx):
-        tops = [f["name"] for f in req["fields"]]
-        if not tops:
+    def sig_paths(self, req, depth=0, prefix=""):
+        """candidate method_signature paths: top-level fields and dotted paths through singular local messages."""
+        out = []
+        for f in req["fields"]:
+            out.append((prefix + f["name"], f))
+            if f["type"] == "message" and not f.get("repeated") and depth < 2:
+                sub = next((t["msg"] for t in self.pool if t["full"] == f["type_name"] and t["msg"] is not None), None)
+                if sub is not None and sub is not req:
+                    out.extend(self.sig_paths(sub, depth + 1, prefix + f["name"] + "."))
+        return out
+
+    def signature(self, req, fileidx, used_leaves):
+        cands = self.sig_paths(req)
+        if not self.p.get("dotted_signatures", True):
+            cands = [c for c in cands if "." not in c[0]]
+        if not cands:
             return ""
-        k = self.d(st.integers(1, min(4, len(tops))))
-        idxs = self.d(st.lists(st.integers(0, len(tops) - 1), min_size=k, max_size=k, unique=True))
+        k = self.d(st.integers(1, min(4, len(cands))))
+        idxs = self.d(st.lists(st.integers(0, len(cands) - 1), min_size=k, max_size=k, unique=True))
         parts = []
-        byname = {f["name"]: f for f in req["fields"]}
         for j, i in enumerate(idxs):
-            f = byname[tops[i]]
+            path, f = cands[i]
+            leaf = path.split(".")[-1]
             if (f.get("repeated") or f["type"] == "map") and j != len(idxs) - 1:
                 continue          # a repeated field only as the last parameter
-            parts.append(tops[i])
+            if any(o != path and (o.startswith(path + ".") or path.startswith(o + ".")) for o in used_leaves.values()):
+                continue          # a message and a field inside it both flattened: assignment order would matter
+            if used_leaves.get(leaf, path) != path:
+                # two paths with the same leaf name would yield two parameters of one name
+                self.excluded.append("dup-flattened-leaf")
+                continue
+            used_leaves[leaf] = path
+            parts.append(path)
         return ",".join(parts)
 
     def io_home(self, file, pkg, names, fileidx):
         """Where a method's request/response message is defined: normally the service's file, sometimes an
         earlier target file (possibly in another proto sub-package)."""
-        if fileidx > 0 and _p(self.draw, self.p.get("p_foreign_io", 0.15)):
+        if fileidx > 0 and _p(self.draw, self.p.get("p_foreign_io", 0.0)):
             j = self.d(st.integers(0, fileidx - 1))
             f = self.api_files[j]
             return f, f["package"], self.ns(f["package"]), j
@@ -488,8 +508,9 @@ class Builder:
                 meth["http"] = rule
             if self.coin("p_sig") and not meth.get("cs"):
                 sigs = []
-                for _ in range(self.d(st.integers(1, 2))):
-                    s = self.signature(req, fileidx)
+                used_leaves = {}
+                for _ in range(self.d(st.integers(1, 3))):
+                    s = self.signature(req, fileidx, used_leaves)
                     if s and s not in sigs:
                         sigs.append(s)
                 if sigs:
@@ -507,6 +528,15 @@ class Builder:
                             rp["template"] = t % keyn
                         rps.append(rp)
                     meth["routing"] = rps
+        if req is None and self.coin("p_sig") and not meth.get("cs"):
+            dep_sigs = {".google.iam.v1.GetIamPolicyRequest": ["resource", "resource,options.requested_policy_version"],
+                        ".google.iam.v1.SetIamPolicyRequest": ["resource"],
+                        ".google.iam.v1.TestIamPermissionsRequest": ["resource,permissions"],
+                        ".google.longrunning.GetOperationRequest": ["name"],
+                        ".google.longrunning.ListOperationsRequest": ["name,filter"],
+                        ".google.cloud.location.GetLocationRequest": ["name"]}
+            if meth["input"] in dep_sigs:
+                meth["signatures"] = list(dep_sigs[meth["input"]])
         if self.coin("p_deprecated"):
             meth["deprecated"] = True
         c = self.comment()
